@@ -1,85 +1,66 @@
 ----------------------------- MODULE WsShimTrace -----------------------------
 (* Recorded runs of the real websocket shim (websockets.Proxy in process, real  *)
 (* gorilla websocket backend, harness playing the browser shim) judged against   *)
-(* the observable rules of WsShim: C11 delivery, C12 call answers / lifecycle,   *)
-(* C13 dial confinement.                                                         *)
+(* WsShimObs - the observable behaviour that the goroutine-level model WsShim is *)
+(* checked to refine: C11 delivery, C12 call answers / lifecycle - plus the      *)
+(* rules on call arguments and on the dial target (C13).                         *)
 EXTENDS TraceCommon, FiniteSets, Integers
 
-VARIABLES sess,        \* [sid -> "open" | "closed"] sessions known to the harness (missing = never opened)
-          announced,   \* [sid -> number of client messages handed to data calls so far]
-          brecv,       \* [sid -> number of client messages the backend has received (in order)]
-          bsent,       \* [sid -> number of messages the backend has sent]
-          crecv,       \* [sid -> number of backend messages the client has received through polls]
-          bclosed,     \* [sid -> the backend closed the websocket first]
-          sawClose,    \* [sid -> the backend observed the close of the websocket]
-          l
+VARIABLES sess, closing, announced, brecv, bsent, crecv, bclosed, sawClose, ans, l
 Sids == FieldSet("WsOpened", "sid")
-svars == <<sess, announced, brecv, bsent, crecv, bclosed, sawClose>>
+O == INSTANCE WsShimObs WITH Sess <- Sids, osess <- sess, oclosing <- closing, oann <- announced, obrecv <- brecv,
+                              obsent <- bsent, ocrecv <- crecv, obclosed <- bclosed, osaw <- sawClose, oans <- ans
+svars == <<sess, closing, announced, brecv, bsent, crecv, bclosed, sawClose, ans>>
 Is(e) == l <= TLen /\ Trace[l].ev = e
 E == Trace[l]
 Step == l' = l + 1 /\ Mark(l)
 Same == UNCHANGED svars
 
-TInit == /\ sess = [s \in Sids |-> "none"] /\ announced = [s \in Sids |-> 0] /\ brecv = [s \in Sids |-> 0]
-         /\ bsent = [s \in Sids |-> 0] /\ crecv = [s \in Sids |-> 0] /\ bclosed = [s \in Sids |-> FALSE]
-         /\ sawClose = [s \in Sids |-> FALSE] /\ l = 1 /\ HWMInit
-TReset == Is("Reset") /\ sess' = [s \in Sids |-> "none"] /\ announced' = [s \in Sids |-> 0] /\ brecv' = [s \in Sids |-> 0]
-          /\ bsent' = [s \in Sids |-> 0] /\ crecv' = [s \in Sids |-> 0] /\ bclosed' = [s \in Sids |-> FALSE]
-          /\ sawClose' = [s \in Sids |-> FALSE]
+TInit == O!OInitWith("none") /\ l = 1 /\ HWMInit
+TReset == Is("Reset") /\ sess' = [s \in Sids |-> "none"] /\ closing' = [s \in Sids |-> FALSE]
+          /\ announced' = [s \in Sids |-> 0] /\ brecv' = announced' /\ bsent' = announced' /\ crecv' = announced'
+          /\ bclosed' = closing' /\ sawClose' = closing' /\ ans' = <<"none", 0>>
                /\ Step
 
-OkStatus(st) == st \in {200, 400, 408, 500}
 Live(s) == s \in Sids /\ sess[s] = "open"
 
 \* open call answered 200: a new session exists
-TOpened == Is("WsOpened") /\ sess[E.sid] = "none" /\ sess' = [sess EXCEPT ![E.sid] = "open"]
-           /\ UNCHANGED <<announced, brecv, bsent, crecv, bclosed, sawClose>>
+TOpened == Is("WsOpened") /\ O!OOpened(E.sid)
                /\ Step
 \* open call that did not produce a session (malformed URL / dial refused)
-TOpenFailed == Is("WsOpenFailed") /\ Same /\ OkStatus(E.status) /\ E.status # 200
+TOpenFailed == Is("WsOpenFailed") /\ Same /\ O!OkStatus(E.status) /\ E.status # 200
                /\ Step
 \* the harness is about to post client messages number from..to (one data post outstanding at a time)
-TDataBegin == Is("DataBegin") /\ Live(E.sid) /\ E.from = announced[E.sid] + 1 /\ E.to >= E.from
-              /\ announced' = [announced EXCEPT ![E.sid] = E.to]
-              /\ UNCHANGED <<sess, brecv, bsent, crecv, bclosed, sawClose>>
+TDataBegin == Is("DataBegin") /\ Live(E.sid) /\ O!ODataBegin(E.sid, E.from, E.to)
+               /\ Step
+TCloseBegin == Is("CloseBegin") /\ E.sid \in Sids /\ O!OCloseBegin(E.sid)
                /\ Step
 \* C11: the backend receives the client's messages once each, in order, unchanged
-TBackendRecv == Is("BackendRecv") /\ E.sid \in Sids /\ E.n = brecv[E.sid] + 1 /\ E.n <= announced[E.sid] /\ E.same
-              /\ brecv' = [brecv EXCEPT ![E.sid] = E.n]
-              /\ UNCHANGED <<sess, announced, bsent, crecv, bclosed, sawClose>>
+TBackendRecv == Is("BackendRecv") /\ E.sid \in Sids /\ E.same /\ O!OBackendRecv(E.sid, E.n)
                /\ Step
-TBackendSend == Is("BackendSend") /\ E.sid \in Sids /\ E.n = bsent[E.sid] + 1
-              /\ bsent' = [bsent EXCEPT ![E.sid] = E.n]
-              /\ UNCHANGED <<sess, announced, brecv, crecv, bclosed, sawClose>>
+TBackendSend == Is("BackendSend") /\ E.sid \in Sids /\ O!OBackendSend(E.sid, E.n)
                /\ Step
-TBackendClose == Is("BackendClose") /\ E.sid \in Sids /\ bclosed' = [bclosed EXCEPT ![E.sid] = TRUE]
-              /\ UNCHANGED <<sess, announced, brecv, bsent, crecv, sawClose>>
+TBackendClose == Is("BackendClose") /\ E.sid \in Sids /\ O!OBackendClose(E.sid)
                /\ Step
-TBackendSawClose == Is("BackendSawClose") /\ E.sid \in Sids /\ sawClose' = [sawClose EXCEPT ![E.sid] = TRUE]
-              /\ UNCHANGED <<sess, announced, brecv, bsent, crecv, bclosed>>
+TBackendSawClose == Is("BackendSawClose") /\ E.sid \in Sids /\ O!OBackendSawClose(E.sid)
                /\ Step
-\* C12: every call is answered with 200/400/408/500; unknown, closed and malformed arguments are rejected with 400
-TCall == Is("Call") /\ OkStatus(E.status)
-         /\ (E.arg \in {"unknown", "closed", "malformed"} => E.status = 400)
-         /\ (E.arg = "valid" /\ E.kind = "data" /\ E.status = 200 => Live(E.sid))
-         \* poll: the messages delivered are the next ones the backend sent, in order, unchanged
-         /\ (IF E.kind = "poll" /\ E.status = 200
-               THEN /\ E.count >= 1 /\ E.first = crecv[E.sid] + 1 /\ E.first + E.count - 1 <= bsent[E.sid] /\ E.same
-                    /\ crecv' = [crecv EXCEPT ![E.sid] = E.first + E.count - 1]
-               ELSE UNCHANGED crecv)
-         \* a poll that reports the session closed comes only after everything received was delivered
-         /\ (E.kind = "poll" /\ E.arg = "valid" /\ E.status = 400 => (bclosed[E.sid] \/ sess[E.sid] = "closed") /\ crecv[E.sid] = bsent[E.sid])
-         /\ (IF (E.kind = "close" /\ E.arg = "valid" /\ E.status = 200) \/ (E.kind = "poll" /\ E.arg = "valid" /\ E.status = 400)
-               THEN sess' = [sess EXCEPT ![E.sid] = "closed"] ELSE UNCHANGED sess)
-         /\ UNCHANGED <<announced, brecv, bsent, bclosed, sawClose>>
+\* C12: every call is answered with 200/400/408/500.  Calls on a session the harness opened are judged by
+\* WsShimObs (poll: the next messages in order, unchanged; end of session only after a close or after
+\* everything the backend had sent was delivered); unknown, closed and malformed arguments are rejected with 400
+TCallOnSession == Is("Call") /\ E.arg \in {"valid", "valid-refused"} /\ E.sid \in Sids
+         /\ (E.kind = "data" /\ E.status = 200 => Live(E.sid))
+         /\ (E.kind = "poll" /\ E.status = 200 => E.same)
+         /\ (E.kind = "poll" /\ E.status = 400 => (bclosed[E.sid] \/ sess[E.sid] = "closed") /\ crecv[E.sid] = bsent[E.sid])  \* (sequential caller)
+         /\ (IF E.kind = "poll" /\ E.status = 200 THEN O!OAnswer(E.sid, "poll", 200, E.first, E.count)
+                                                   ELSE O!OAnswer(E.sid, E.kind, E.status, 0, 0))
+               /\ Step
+TCallRejected == Is("Call") /\ E.arg \in {"unknown", "closed", "malformed"} /\ E.status = 400 /\ Same
                /\ Step
 \* end of a scenario: nothing panicked, everything accepted was delivered, closed sessions reached the backend
-TFinal == Is("Final") /\ Same /\ ~E.panicked
-          /\ (\A s \in Sids : sess[s] # "none" => (brecv[s] = announced[s] \/ bclosed[s]))
-          /\ (\A s \in Sids : (sess[s] = "closed" /\ ~bclosed[s]) => sawClose[s])
+TFinal == Is("Final") /\ Same /\ ~E.panicked /\ O!Settled
                /\ Step
 \* C13: the shim only ever dials the configured backend; the supplied URL contributes path and query only
-TDial == Is("OpenCase") /\ Same /\ OkStatus(E.status)
+TDial == Is("OpenCase") /\ Same /\ O!OkStatus(E.status)
          /\ (\A k \in DOMAIN E.dialed : E.dialed[k] = E.backend)
          /\ (E.status = 200 /\ E.class # "outside-prefix" => (E.saw_path = E.want_path /\ E.saw_query = E.want_query /\ Len(E.dialed) >= 1))
          \* requests outside the shim prefix reach the wrapped handler untouched (the harness reports 200 iff they did)
@@ -87,7 +68,7 @@ TDial == Is("OpenCase") /\ Same /\ OkStatus(E.status)
                /\ Step
 TOther == (Is("WsStore") \/ Is("WsDelete")) /\ Same
                /\ Step
-TNext == TReset \/ TOpened \/ TOpenFailed \/ TDataBegin \/ TBackendRecv \/ TBackendSend \/ TBackendClose \/ TBackendSawClose
-         \/ TCall \/ TFinal \/ TDial \/ TOther
+TNext == TReset \/ TOpened \/ TOpenFailed \/ TDataBegin \/ TCloseBegin \/ TBackendRecv \/ TBackendSend \/ TBackendClose
+         \/ TBackendSawClose \/ TCallOnSession \/ TCallRejected \/ TFinal \/ TDial \/ TOther
 TSpec == TInit /\ [][TNext]_<<svars, l>>
 =============================================================================
